@@ -340,16 +340,8 @@ def pair_delete(repo, col, R):
               node=subs[0].node if subs else fi.node)
 
 
-def _pair_rest(repo, col, R):
-    fi = repo.method("Module", "_external_input")
-    ex = idx.expander(repo, fi)
-    by_guard = {}
-    for s in ex.stores:
-        if s.kind == "sub" and _reg_name(s.base) in ("externals", "external_inds"):
-            by_guard.setdefault(tuple(g.key() for g in s.guards), []).append(_reg_name(s.base))
-    ok = all(sorted(v) == ["external_inds", "externals"] for v in by_guard.values()) and by_guard
-    col.check(ok, R, fi, "_external_input stores values and indices together on every path", str(list(by_guard.values())),
-              f"stores per path: {list(by_guard.values())}", node=fi.node)
+def record_dedup(repo, col, R):
+    """record() keeps one row per (rec_index, state): two different states recorded at one place are two rows."""
     fi = repo.method("Module", "record")
     exr = idx.expander(repo, fi)
     rs = [s_ for s_ in exr.stores if s_.kind == "attr" and s_.key.name == "recordings" and s_.value is not None]
@@ -373,6 +365,19 @@ def _pair_rest(repo, col, R):
             (f"duplicates are detected on {partial.short(40)} only: two different states recorded at one compartment collapse into one"
              if partial is not None else "recording the same state twice at one place yields two rows: the recorded array has a duplicate row "
              "and delete/record histories are not idempotent"), node=fi.node)
+
+
+def _pair_rest(repo, col, R):
+    fi = repo.method("Module", "_external_input")
+    ex = idx.expander(repo, fi)
+    by_guard = {}
+    for s in ex.stores:
+        if s.kind == "sub" and _reg_name(s.base) in ("externals", "external_inds"):
+            by_guard.setdefault(tuple(g.key() for g in s.guards), []).append(_reg_name(s.base))
+    ok = all(sorted(v) == ["external_inds", "externals"] for v in by_guard.values()) and by_guard
+    col.check(ok, R, fi, "_external_input stores values and indices together on every path", str(list(by_guard.values())),
+              f"stores per path: {list(by_guard.values())}", node=fi.node)
+    record_dedup(repo, col, R)
     fi = repo.method("Network", "_append_multiple_synapses")
     ex = idx.expander(repo, fi)
     # global_edge_index of the new rows = len(existing edges) .. len(existing edges) + number of new rows
